@@ -15,7 +15,22 @@ import os
 import re as _re
 
 from jsonargparse import ArgumentParser, Namespace
-from jsonargparse.typing import get_registered_type, register_type, restricted_number_type, restricted_string_type
+import operator as _op
+
+from jsonargparse.typing import extend_base_type, get_registered_type, register_type, restricted_number_type, restricted_string_type
+
+_CMP = {">": _op.gt, ">=": _op.ge, "<": _op.lt, "<=": _op.le, "==": _op.eq, "!=": _op.ne}
+
+
+def _attrs_validation(cls, v):
+    """validation function of the extend_base_type flavour of machine alias: reads the restrictions from the class attribute _rs"""
+    if isinstance(v, bool):
+        raise ValueError("not a number")
+    if isinstance(v, float) and not v.is_integer():
+        raise ValueError("not an integer")
+    vv = int(v)
+    if not all(_CMP[op](vv, ref) for op, ref in cls._rs):
+        raise ValueError(f"{v} does not conform to {cls._rs}")
 
 _COUNTER = [0]
 
@@ -42,12 +57,19 @@ class World:
     """the concrete objects of one behaviour: fresh user classes, their handler functions, one parser per class (made at the
     first use and kept, so that a later registration meets an existing parser), fresh names / patterns / references"""
 
-    def __init__(self):
+    def __init__(self, flavour="list"):
+        self.flavour = flavour  # machine alias: "list" = restricted_number_type(name, int, caller's list); "attrs" = extend_base_type(..., extra_attrs=caller's dict)
         self.uid = _uid()
         self.cls = {}
         self.deser = {}
         self.parsers = {}
         self.created = []  # types returned by the creation calls so far
+        # machine "alias": the caller-owned list a type is created from (mutated afterwards), the types by name
+        self.ref0 = 200000 + 10 * self.uid
+        self.bounds = [(">=", self.ref0)]
+        self.by_name = {}
+        self.aparsers = {}
+        self.attrs = {"_rs": tuple(self.bounds), "_expression": "attrs"}  # the caller-owned dict of the "attrs" flavour
 
     def klass(self, c):
         if c not in self.cls:
@@ -146,7 +168,80 @@ class World:
                 sem.append(False)
         return {"out": out, "sem": sem, "python_type": getattr(T, "__name__", str(T))}
 
+    # ---- machine "alias"
+    def _probe_values(self):
+        return [self.ref0 - 1, self.ref0, self.ref0 + 1, self.ref0 + 2]
+
+    def _sem_direct(self, T):
+        out = []
+        for pr in self._probe_values():
+            try:
+                out.append(T(pr) == pr)
+            except (ValueError, TypeError):
+                out.append(False)
+        return out
+
+    def createa(self, name):
+        nm = f"C20A{self.uid}{name}"
+        try:
+            if self.flavour == "attrs":  # the caller's dict itself is handed over; docstring and key are values
+                T = extend_base_type(nm, int, _attrs_validation, docstring=f"int restricted by {self.attrs['_rs']}", extra_attrs=self.attrs,
+                                     register_key=(tuple(sorted(self.bounds)), int, "c20-attrs"))
+            else:
+                T = restricted_number_type(nm, int, self.bounds)  # the caller's list itself is handed over
+        except ValueError as ex:
+            return {"out": "raise", "sem": [False] * 4, "msg": str(ex)[:80]}
+        except BaseException as ex:  # noqa: BLE001
+            return {"out": "raise:" + type(ex).__name__, "sem": [False] * 4}
+        out = "existing" if any(T is t for t in self.by_name.values()) else "new"
+        self.by_name.setdefault(name, T)
+        return {"out": out, "sem": self._sem_direct(T), "expr": self._expr(T), "python_type": T.__name__, "same_as_named": self.by_name[name] is T}
+
+    def _expr(self, T):
+        if self.flavour == "attrs":  # what the class says about itself: its _rs attribute, rendered like typing.py:144 renders restrictions
+            rs = getattr(T, "_rs", None)
+            return "?" if rs is None else " and ".join(f"v{op}{ref}" for op, ref in rs)
+        return getattr(T, "_expression", "?")
+
+    def mutate(self, how):
+        if how == "append":
+            self.bounds.append(("<=", self.ref0 + 1))
+        elif how == "clear":
+            self.bounds.clear()
+        else:
+            self.bounds[0] = (">", self.ref0)
+        self.attrs["_rs"] = tuple(self.bounds)  # "attrs" flavour: the entry of the caller's dict is replaced
+        self.attrs["_added_later"] = len(self.bounds)
+        return {"out": "ok", "sem": [False] * 4, "list_now": [[op, r - self.ref0] for op, r in self.bounds]}
+
+    def probe(self, name):
+        T = self.by_name[name]
+        if name not in self.aparsers:
+            p = ArgumentParser(exit_on_error=False)
+            p.add_argument("--x", type=T)
+            self.aparsers[name] = p
+        p = self.aparsers[name]
+        res = {"out": "probed", "sem": self._sem_direct(T), "expr": self._expr(T), "python_type": T.__name__, "cli": [], "object": [], "file": []}
+        for pr in self._probe_values():
+            for chan, call in (("cli", lambda: p.parse_args([f"--x={pr}"]).x), ("object", lambda: p.parse_object({"x": pr}).x), ("file", lambda: p.parse_string(f"x: {pr}\n").x)):
+                try:
+                    r = call()
+                    res[chan].append(bool(r == pr and isinstance(r, T)))
+                except BaseException:  # noqa: BLE001
+                    res[chan].append(False)
+        return res
+
+    def expr_of(self, cont):
+        """gamma of a content printed by TLC (sequence of [op, offset]) into the expression text of typing.py:144"""
+        return " and ".join(f"v{op}{self.ref0 + off}" for op, off in cont)
+
     def step(self, o):
+        if o["op"] == "createa":
+            return self.createa(o["name"])
+        if o["op"] == "mutate":
+            return self.mutate(o["h"])
+        if o["op"] == "probe":
+            return self.probe(o["name"])
         if o["op"] == "reg":
             return self.reg(o["c"], o["h"], o["fail"])
         if o["op"] == "use":
@@ -163,6 +258,12 @@ def op_label(o) -> str:
         return f"parse {o['h']}:x as {o['c']}"
     if o["op"] == "dump":
         return f"dump {o['c']}('x')"
+    if o["op"] == "createa":
+        return f"restricted_number_type({o['name']}, int, bounds)"
+    if o["op"] == "mutate":
+        return {"append": "bounds.append(('<=', r+1))", "clear": "bounds.clear()", "set0": "bounds[0] = ('>', r)"}[o["h"]]
+    if o["op"] == "probe":
+        return f"probe the type named {o['name']}"
     return f"restricted type {o['spec']} named {o['name']}"
 
 
@@ -170,9 +271,38 @@ def allowed(ref: str, got: str) -> bool:
     return got in ref.split("|")
 
 
-def judge_step(rep, ops, q, exp, want, ob, origin):
+def judge_alias(rep, o, exp, want, ob, case, hist, world):
+    """machine alias: the type stands for the content it was created from (want = Ref's acceptance vector, exp.cont = that content)"""
+    if o["op"] == "mutate":
+        return
+    expr = world.expr_of(exp["cont"]) if world is not None else None
+    if o["op"] == "probe":
+        for chan in ("sem", "cli", "object", "file"):
+            if list(ob[chan]) != list(want):
+                rep.violation(f"create:alias:probe:{'direct' if chan == 'sem' else chan}", f"after {hist[:-1]}: the type named {o['name']} accepts {ob[chan]} on the probes (r-1, r, r+1, r+2) via {'a direct cast' if chan == 'sem' else chan}; "
+                              f"the content it was created from accepts {list(want)} (it must not follow the caller's list)", case)
+        if expr is not None and ob.get("expr") != expr:
+            rep.violation("create:alias:expression", f"after {hist[:-1]}: the type named {o['name']} describes itself as {ob.get('expr')!r}; it was created from {expr!r}", case)
+        return
+    ok = allowed(exp["ref"], ob["out"]) and (ob["out"] == "raise" or list(ob["sem"]) == list(want))
+    if not ok:
+        rep.violation(f"create:alias:create:{ob['out']}:{''.join('1' if b else '0' for b in ob['sem'])}",
+                      f"after {hist[:-1]}: {hist[-1]} gave {ob['out']} with acceptance {ob['sem']}; the specification allows {exp['ref']} with acceptance {list(want)} (the list holds {exp['cont']})", case)
+    elif ob["out"] != exp["alg"]:
+        rep.add_drift(f"type creation from a caller-owned list: Alg predicts {exp['alg']} ({exp['why']}), the code gave {ob['out']}", case)
+    elif ob["out"] != "raise" and expr is not None and ob.get("expr") != expr:
+        rep.violation("create:alias:expression", f"after {hist[:-1]}: {hist[-1]} returned a type that describes itself as {ob.get('expr')!r}; the content is {expr!r}", case)
+
+
+def judge_step(rep, ops, q, exp, want, ob, origin, world=None):
     """compare one observed step with what the specification says (exp = [ref, alg, why, dev, sem] of that step)"""
     o = ops[q]
+    if o["op"] in ("createa", "mutate", "probe"):
+        hist = [op_label(x) for x in ops[: q + 1]]
+        case = {"origin": origin, "history": hist, "operations": ops[: q + 1], "operation": o, "expected": exp, "expected_acceptance": list(want), "observed": ob}
+        rep.note_nontrivial("registry|" + "|".join(hist))
+        judge_alias(rep, o, exp, want, ob, case, hist, world)
+        return case
     hist = [op_label(x) for x in ops[: q + 1]]
     case = {"origin": origin, "history": hist, "operations": ops[: q + 1], "operation": o, "expected": exp, "observed": ob}
     rep.note_nontrivial("registry|" + "|".join(hist))
@@ -208,25 +338,62 @@ def replay_behaviours(rep, lines, origin="mc"):
     """spec -> code: run every emitted behaviour step by step"""
     n = 0
     for ln in lines:
-        w = World()
-        for q, o in enumerate(ln["ops"]):
-            ob = w.step(o)
-            n += 1
-            case = judge_step(rep, ln["ops"], q, ln["outs"][q], ln["want"][q], ob, origin)
-            if ln["i"] % 401 == 0 and q == len(ln["ops"]) - 1:
-                rep.sample({"part": "registry", **case}, limit=16)
+        for flavour in (("list", "attrs") if ln["mach"] == "alias" else ("list",)):
+            w = World(flavour)
+            for q, o in enumerate(ln["ops"]):
+                ob = w.step(o)
+                n += 1
+                case = judge_step(rep, ln["ops"], q, ln["outs"][q], ln["want"][q], ob, origin + (":" + flavour if ln["mach"] == "alias" else ""), w)
+                if (ln["i"] % 401 == 0 or (ln["mach"] == "alias" and ln["i"] % 97 == 0)) and q == len(ln["ops"]) - 1:
+                    rep.sample({"part": "registry", **case}, limit=20)
     return n
+
+
+def alpha_expr(expr, ref0):
+    """the expression text of a type ("v>=200010 and v<=200011") as a content: [[op, offset], ...]; [["?", 0]] when it has another form"""
+    if expr is None:
+        return [["-", 0]]
+    if expr == "":
+        return []
+    out = []
+    for part in expr.split(" and "):
+        m = _re.fullmatch(r"v(>=|<=|==|!=|>|<)(-?\d+)", part)
+        if not m:
+            return [["?", 0]]
+        out.append([m.group(1), int(m.group(2)) - ref0])
+    return out
 
 
 def random_behaviours(rnd, count, length):
     """code -> spec: seeded random longer behaviours, executed and recorded for Trace_Registry"""
     out = []
     for _ in range(count):
-        mach = rnd.choice(["handlers", "create"])
-        w = World()
+        mach = rnd.choice(["handlers", "create", "alias"])
+        w = World(rnd.choice(["list", "attrs"]) if mach == "alias" else "list")
         ops, obs = [], []
         registered = set()
+        shadow = [(">=", 0)]  # what the caller's list holds (bookkeeping of the driver, to pick enabled operations only)
         for _ in range(rnd.randint(4, length)):
+            if mach == "alias":
+                kinds = ["mutate"] * 2 + (["createa"] * 2 if shadow else []) + (["probe"] * 3 if w.by_name else [])
+                kind = rnd.choice(kinds)
+                if kind == "mutate":
+                    hows = [h for h in ("append", "clear", "set0") if (h == "append" and len(shadow) < 2 and ("<=", 1) not in shadow) or (h == "clear" and shadow) or (h == "set0" and shadow and (">", 0) not in shadow)]
+                    if not hows:
+                        continue
+                    how = rnd.choice(hows)
+                    shadow = shadow + [("<=", 1)] if how == "append" else [] if how == "clear" else [(">", 0)] + shadow[1:]
+                    o = {"op": "mutate", "c": "-", "h": how, "fail": False, "name": "-", "spec": "-"}
+                elif kind == "createa":
+                    o = {"op": "createa", "c": "-", "h": "-", "fail": False, "name": rnd.choice(["N1", "N2", "N3"]), "spec": "-"}
+                else:
+                    o = {"op": "probe", "c": "-", "h": "-", "fail": False, "name": rnd.choice(sorted(w.by_name)), "spec": "-"}
+                ob = w.step(o)
+                ops.append(o)
+                z4 = [False] * 4
+                obs.append({"out": ob["out"], "cli": [bool(b) for b in ob.get("cli", z4)], "object": [bool(b) for b in ob.get("object", z4)], "file": [bool(b) for b in ob.get("file", z4)],
+                            "sem": [bool(b) for b in ob.get("sem", z4)], "expr": ob.get("expr", "-"), "econt": alpha_expr(ob.get("expr"), w.ref0)})
+                continue
             if mach == "handlers":
                 kind = rnd.choice(["reg", "reg", "use", "dump"]) if registered else "reg"
                 if kind == "reg":
@@ -243,5 +410,5 @@ def random_behaviours(rnd, count, length):
             ob = w.step(o)
             ops.append(o)
             obs.append({"out": ob["out"], "cli": ob.get("cli", "-"), "object": ob.get("object", "-"), "sem": [bool(b) for b in ob.get("sem", [False, False, False])]})
-        out.append({"mach": mach, "ops": ops, "obs": obs})
+        out.append({"mach": mach, "flavour": w.flavour if mach == "alias" else "-", "ops": ops, "obs": obs})
     return out
